@@ -359,3 +359,43 @@ Definition ref_process (t : ctable) (m : ref_msg) : option (bytes * cache) * cta
   let c0 := match tfind (rm_qname m) t with Some c => c | None => cache_empty end in
   let '(c1, u) := learn_all c0 false (rm_learned m) in
   if u then (Some (rm_qname m, c1), tput (rm_qname m) c1 t) else (None, t).
+
+(* ------------------------------------------------------------------ *)
+(* RFC 1001 14.1 FIRST LEVEL ENCODING: a NetBIOS name is 16 octets (shorter names are padded with
+   spaces); each octet is split into two nibbles, each nibble + 'A' is one character; the 32
+   characters form one label (length octet 0x20), followed by the root octet (no scope). *)
+Definition nb_pad16 (n : bytes) : bytes := n ++ repeat 32 (16 - length n).
+
+Definition nb_encode (n16 : bytes) : bytes :=
+  32 :: flat_map (fun c => [65 + c / 16; 65 + c mod 16]) n16 ++ [0].
+
+Definition is_nibble_char (a : N) : bool := (65 <=? a) && (a <=? 80).
+
+Fixpoint nb_decode_pairs (l : bytes) : option bytes :=
+  match l with
+  | [] => Some []
+  | a :: b :: r =>
+      if is_nibble_char a && is_nibble_char b then
+        match nb_decode_pairs r with
+        | Some x => Some ((a - 65) * 16 + (b - 65) :: x)
+        | None => None
+        end
+      else None
+  | _ => None
+  end.
+
+Definition nb_decode (enc : bytes) : option bytes :=
+  match enc with
+  | 32 :: r => if Nat.eqb (length r) 33 && (nth 32 r 1 =? 0) then nb_decode_pairs (firstn 32 r) else None
+  | _ => None
+  end.
+
+(* all unique (G = 0) names of a NODE STATUS array, presented *)
+Definition node_status_names (b : bytes) : option (list bytes) :=
+  if node_status_wf b then
+    Some (map (fun x => present_name (fst x))
+              (filter (fun x => negb (snd x)) (node_names b (N.to_nat (nth 0 b 0)) 1)))
+  else None.
+
+(* presentation of a decoded first-level name: trailing spaces removed *)
+Definition present_spaces (raw : bytes) : bytes := rev (strip_right 32 (rev raw)).
